@@ -65,6 +65,19 @@ func main() {
 	switch os.Args[1] {
 	case "check":
 		os.Exit(check(os.Args[2:]))
+	case "dump":
+		// govc dump <prop> <regexp>
+		w, err := engine.Setup("/repo", []string{os.Args[2]}, nil)
+		if err != nil {
+			fmt.Fprintln(os.Stderr, err)
+			os.Exit(2)
+		}
+		re := regexp.MustCompile(os.Args[3])
+		for fn := range ssautil.AllFunctions(w.Prog) {
+			if re.MatchString(fn.String()) {
+				fn.WriteTo(os.Stdout)
+			}
+		}
 	default:
 		fmt.Fprintln(os.Stderr, "unknown command")
 		os.Exit(2)
